@@ -358,6 +358,10 @@ pub fn run(params: &Params) {
         let index = if !mentioned.is_empty() && ctx::choose(2) == 0 {
           let m: Vec<u32> = mentioned.iter().copied().collect();
           m[ctx::choose(m.len())]
+        } else if ctx::choose(12) == 0 {
+          // the ends of the index range
+          ctx::stat("probe.credential_index_at_range_end");
+          [u32::MAX, u32::MAX - 1, 0, 65_535, 65_536][ctx::choose(5)]
         } else {
           let v = next_seq;
           next_seq += 1;
@@ -594,7 +598,46 @@ fn err_chain(e: &dyn std::error::Error) -> String {
 fn foreign_encoder_scenario(core: &CoreDocument, sid: &str, model: &BTreeSet<u32>) {
   let ep = endpoint_of(core, sid);
   let Some(raw) = super::b64url_decode(&ep).and_then(|z| unzlib(&z)) else { return };
-  match ctx::choose(3) {
+  match ctx::choose(4) {
+    3 => {
+      // the service endpoint written as a one-element array (a set of one URL): the same endpoint
+      let mut v = match serde_json::to_value(core) {
+        Ok(v) => v,
+        Err(_) => return,
+      };
+      let mut done = false;
+      if let Some(a) = v.get_mut("service").and_then(|s| s.as_array_mut()) {
+        if let Some(svc) = a.iter_mut().find(|s| s.get("id").and_then(|i| i.as_str()) == Some(sid)) {
+          if let Some(ep_full) = svc.get("serviceEndpoint").and_then(|e| e.as_str()).map(str::to_owned) {
+            svc["serviceEndpoint"] = serde_json::json!([ep_full]);
+            done = true;
+          }
+        }
+      }
+      let Some(mut doc) = done.then(|| CoreDocument::from_json_value(v).ok()).flatten() else { return };
+      ctx::stat("probe.endpoint_as_one_element_array");
+      ctx::sched("epset", 1);
+      let got = ctx::catch(|| doc.resolve_revocation_bitmap(sid.into()).map_err(|e| e.to_string())).unwrap_or_else(|p| Err(format!("panic: {p}")));
+      let qs: Vec<u32> = model.iter().copied().take(16).chain([0u32, 1, 65_536, u32::MAX]).collect();
+      check_bitmap("endpoint-as-one-element-array", got, model, &qs, &ep);
+      // ... and the issuer can still maintain it
+      let far = 9_000_000 + ctx::choose(1000) as u32;
+      match doc.revoke_credentials(sid, &[far]) {
+        Err(e) => ctx::violation(
+          "C06",
+          "C06.endpoint_round_trip",
+          "endpoint-as-one-element-array/update-fails",
+          format!("revoke_credentials on a service whose endpoint is a one-element array failed: {}", err_chain(&e)),
+        ),
+        Ok(()) => {
+          let mut want = model.clone();
+          want.insert(far);
+          let ep2 = endpoint_of(&doc, sid);
+          let got = ctx::catch(|| doc.resolve_revocation_bitmap(sid.into()).map_err(|e| e.to_string())).unwrap_or_else(|p| Err(format!("panic: {p}")));
+          check_bitmap("endpoint-as-one-element-array/after-update", got, &want, &[far, 0, 1], &ep2);
+        }
+      }
+    }
     2 => {
       // the same compressed bytes in another spelling of base64: the alphabet the `;base64` label of a data URL denotes
       // (`+` `/`), with or without padding, or the URL-safe alphabet with padding (the default of many encoders)
